@@ -14,10 +14,10 @@ Definition jval (j : jv) : jv := JC "Val" [j].
 
 (* the seven accessors fed by /proc/<pid>/stat, in this order:
    name ppid status cpu_times create_time cpu_num terminal *)
-Definition model_stat (clk : positive) (bt : Z) (devs : list (bytes * option Z)) (data : bytes) : jv :=
+Definition model_stat (masked : bool) (clk : positive) (bt : Z) (devs : list (bytes * option Z)) (data : bytes) : jv :=
   JL [ jv_outcome jb (name data); jv_outcome jz (ppid data); jv_outcome jb (status data);
        jv_outcome jqs (cpu_times clk data); jv_outcome jq (create_time clk bt data);
-       jv_outcome jz (cpu_num data); jv_outcome jterm (terminal devs data) ].
+       jv_outcome jz (cpu_num data); jv_outcome jterm (terminal masked devs data) ].
 
 Definition dec_of (o : option bytes) : option Z :=
   match o with Some d => if is_dec d then Some (dec_val d) else None | None => None end.
@@ -62,10 +62,10 @@ Definition spec_stat (clk : positive) (bt : Z) (devs : list devnode) (tty : opti
           else jnone) ]
   else jnone.
 
-Definition run_stat (clk : positive) (bt : Z) (devs : list devnode) (tty : option (Z * Z)) (r : kstat) : jv :=
-  JL [ JB (k_stat r); model_stat clk bt (map dev_entry devs) (k_stat r); spec_stat clk bt devs tty r ].
-Definition run_stat_raw (clk : positive) (bt : Z) (devs : list (bytes * option Z)) (data : bytes) : jv :=
-  JL [ model_stat clk bt devs data ].
+Definition run_stat (masked : bool) (clk : positive) (bt : Z) (devs : list devnode) (tty : option (Z * Z)) (r : kstat) : jv :=
+  JL [ JB (k_stat r); model_stat masked clk bt (map dev_entry devs) (k_stat r); spec_stat clk bt devs tty r ].
+Definition run_stat_raw (masked : bool) (clk : positive) (bt : Z) (devs : list (bytes * option Z)) (data : bytes) : jv :=
+  JL [ model_stat masked clk bt devs data ].
 
 (* uids gids num_threads num_ctx_switches *)
 Definition model_status (data : bytes) : jv :=
